@@ -322,6 +322,7 @@ ROUND9 = {
 
 # rules added after the tenth seed round (turn shift; "equivalent" API substitution)
 ROUND10 = {
+    "C14": "The pattern that sends a peer phase to int() is one or more digits anchored at both ends, so an unknown phase such as '1x' is ignored and never raises (C14.R10).",
     "C02": "The handler of a server `message` hands it to the Mailbox by a direct call in the same turn, so that an exception while processing a (forged) peer message reaches ws_message's try/except and Boss.error (C02.R9).",
     "C09": "WSClient.onOpen / onMessage / onClose forward to the connector by direct calls in the same turn: open and close of one connection cannot be re-ordered (C09.R11).",
     "C10": "to_be4 / from_be4 use one unsigned 4-byte big-endian format - the seqnum / ack codec of the exactly-once argument (C10.R13). SubchannelConnectorEndpoint.connect has no yield point between registering the subchannel with Inbound and attaching its protocol (C10.R14).",
